@@ -82,7 +82,7 @@ def neighbourhood_families(P, G, tier, default_flags=False, **kw):
     """short symbolic windows at the places where the header options act (before/after the colon, value start and end, line
     start, fold points), inside otherwise concrete messages, with the header options symbolic"""
     J = []
-    top = T(tier, 4, 6); bud = T(tier, 80, 600)
+    top = T(tier, 3, 6); bud = T(tier, 80, 600)
     tm = [('colon', 'resp', RESP_LINE + b'Na', b'v\r\n\r\n', RESP_HDR_SYM), ('colon-req', 'req', REQ_LINE + b'Na', b'v\n\n', REQ_HDR_SYM),
           ('value-start', 'resp', RESP_LINE + b'N:', b'v\r\n\r\n', RESP_HDR_SYM), ('value-end', 'resp', RESP_LINE + b'N:v', b'\r\n\r\n', RESP_HDR_SYM),
           ('after-eol', 'resp', RESP_LINE + b'N:v\r\n', b'w\r\n\r\n', RESP_HDR_SYM), ('line-start', 'resp', RESP_LINE, b'N:v\r\n\r\n', RESP_HDR_SYM),
